@@ -8,6 +8,7 @@ package vos
 import (
 	"io/fs"
 	"os"
+	"syscall"
 	"time"
 )
 
@@ -69,6 +70,9 @@ type Op struct {
 type CrashPlan struct {
 	AtOp  int /* Index of the logged call at which to crash. */
 	Bytes int /* WriteFile: bytes written before the crash; -1: before the call does anything. */
+	/* Err: instead of crashing, WriteFile writes Bytes bytes and returns
+	"no space left on device" (the process goes on). */
+	Err bool
 }
 
 // Crash is the panic value of a planned crash.
@@ -91,7 +95,7 @@ func Reset() { Log, Plan, AfterStep = nil, nil, nil }
 func begin(op Op) int {
 	i := len(Log)
 	Log = append(Log, op)
-	if nil != Plan && Plan.AtOp == i && Plan.Bytes < 0 {
+	if nil != Plan && Plan.AtOp == i && Plan.Bytes < 0 && !Plan.Err {
 		panic(Crash{op})
 	}
 	return i
@@ -120,6 +124,10 @@ func WriteFile(name string, data []byte, perm FileMode) error {
 	_, err = f.Write(data[:k])
 	if err1 := f.Close(); nil != err1 && nil == err {
 		err = err1
+	}
+	if crash && Plan.Err {
+		step(op, "failed")
+		return &os.PathError{Op: "write", Path: name, Err: syscall.ENOSPC}
 	}
 	if crash {
 		panic(Crash{op})
